@@ -113,6 +113,29 @@ def root_var(e):
     return None
 
 
+def path_fields(e):
+    """Fields on the access path of an lvalue (base chain only, not subscripts)."""
+    out = []
+    while isinstance(e, dict):
+        k = e.get('k')
+        if k == 'mem':
+            out.append((e.get('rec'), e['field']))
+            e = e['base']
+        elif k == 'idx':
+            e = e['base']
+        elif k == 'un' and e['op'] in ('*', '&', '++', '--'):
+            e = e['e']
+        elif k == 'bin' and e['op'] in ('+', '-'):
+            e = e['l']
+        else:
+            break
+    return out
+
+
+def on_path(e, field, rec=None):
+    return any(f == field and (rec is None or r == rec) for r, f in path_fields(e))
+
+
 def fields_in(e):
     """(rec, field) pairs mentioned anywhere in e."""
     return {(x.get('rec'), x['field']) for x in walk(e) if x.get('k') == 'mem'}
